@@ -61,6 +61,10 @@ _CSV = ListHandler()
 def _prepare_loggers():
     # another suite in this process may have switched logging off globally; the CSV trace IS a logger
     logging.disable(logging.NOTSET)
+    # ... and may have created the repository's loggers (ILPScheduler, Workload, ...) at DEBUG level on stdout: quiet them
+    for nm, other in list(logging.root.manager.loggerDict.items()):
+        if isinstance(other, logging.Logger) and nm != "Simulator_CSV" and other.handlers and other.level < logging.CRITICAL:
+            other.setLevel(logging.CRITICAL)
     lg = logging.getLogger("Simulator_CSV")
     lg.disabled = False
     lg.handlers = [_CSV]
@@ -100,6 +104,7 @@ def make_flags(f):
         log_graphs=False,
         release_taskgraphs=f["release_taskgraphs"],
         scheduler_log_to_file=False,
+        scheduler_log_times=[],
     )
     return types.SimpleNamespace(**{**_flag_defaults(), **d})
 
@@ -221,7 +226,57 @@ class Recording(BaseScheduler):
         finally:
             run.in_policy = False
         run.record_decision(sim_time, placements)
+        if hasattr(run, "mon"):
+            # where in the stream of observations the decision was taken (oracles: which decision a start carries out)
+            run.mon.append({"ev": "decision", "k": len(run.decisions) - 1, "time": us(sim_time)})
         return placements
+
+
+PLANNERS = ("ILP", "TetriSchedGurobi", "TetriSchedCPLEX")
+_SOLVERS_QUIET = []
+
+
+def build_planner(pol, f, flags):
+    """The REAL optimisation planners (ILPScheduler / TetriSchedGurobiScheduler / TetriSchedCPLEXScheduler) with the
+    options of the world: enforce_deadlines, retract_schedules, release_taskgraphs, lookahead, goal, and for the
+    TetriSched formulations the plan-ahead horizon and the time discretisation.  Scheduler runtime 0."""
+    if not _SOLVERS_QUIET:
+        import multiprocessing
+
+        import gurobipy as gp
+
+        gp.setParam("OutputFlag", 0)  # console chatter only; not a model parameter
+        # the planners ask the solvers for `multiprocessing.cpu_count()` threads: the machine is shared
+        import schedulers.ilp_scheduler as _m1
+        import schedulers.tetrisched_cplex_scheduler as _m2
+        import schedulers.tetrisched_gurobi_scheduler as _m3
+
+        one = types.SimpleNamespace(cpu_count=lambda: 1)
+        for m in (_m1, _m2, _m3):
+            if getattr(m, "multiprocessing", None) is multiprocessing:
+                m.multiprocessing = one
+        _SOLVERS_QUIET.append(True)
+    kw = dict(
+        preemptive=False,
+        runtime=et(0),
+        lookahead=et(pol.get("lookahead", 0)),
+        enforce_deadlines=bool(pol.get("enforce_deadlines", True)),
+        retract_schedules=bool(pol.get("retract", False)),
+        goal=pol.get("goal", "max_goodput"),
+        _flags=flags,
+    )
+    if pol["name"] == "ILP":
+        from schedulers.ilp_scheduler import ILPScheduler
+
+        return ILPScheduler(release_taskgraphs=bool(f["release_taskgraphs"]), **kw)
+    kw.update(time_discretization=et(pol.get("disc", 1)), plan_ahead=et(pol.get("plan_ahead", -1)))
+    if pol["name"] == "TetriSchedGurobi":
+        from schedulers.tetrisched_gurobi_scheduler import TetriSchedGurobiScheduler
+
+        return TetriSchedGurobiScheduler(release_taskgraphs=bool(f["release_taskgraphs"]), **kw)
+    from schedulers.tetrisched_cplex_scheduler import TetriSchedCPLEXScheduler
+
+    return TetriSchedCPLEXScheduler(**kw)
 
 
 class Run:
@@ -274,6 +329,8 @@ class Run:
                 delays=pol.get("delays"),
                 _flags=self.flags,
             )
+        elif pol["name"] in PLANNERS:
+            inner = build_planner(pol, f, self.flags)
         else:
             raise ValueError(pol)
         self.inner = inner
